@@ -23,14 +23,18 @@ Definition write_bit := update.
 
 Definition pad_to (out : list bool) (n : nat) : list bool := out ++ repeat false (n - length out).
 
-(* write_bigint: bit loop, most significant bit first, then `if index + size > len { len = index + size }` *)
+(* write_bigint: bit loop, most significant bit first, then `if size > 0 && index + size > len { len = index + size }`
+   (/repo F49 repair: an empty value writes nothing and does not extend the output) *)
 Fixpoint write_loop (out : list bool) (idx : nat) (enc : list bool) : list bool :=
   match enc with
   | [] => out
   | b :: r => write_loop (update out idx b) (S idx) r
   end.
 Definition write_bigint (out : list bool) (idx : nat) (enc : list bool) : list bool :=
-  pad_to (write_loop out idx enc) (idx + length enc).
+  match enc with
+  | [] => out
+  | _ :: _ => pad_to (write_loop out idx enc) (idx + length enc)
+  end.
 
 (* BitVecSpan, plus what the model knows and the Rust struct does not record: the bank the item was
    written in and (for written items) the encoding *)
